@@ -25,6 +25,12 @@ theorem generated_literals :
     eps = 1 / 10000000000000000000000000 ∧ zeroThresh = 1 / 10000000000 ∧ shiftOffset = 0 := by
   decide +kernel
 
+/-- `minres.py`, `contour_integral_quad.py` and `_sqrt_inv_matmul.py` keep no module-level mutable state and no memoisation
+(no module-level statement other than imports / definitions, no caching decorator, no `global`, no attribute store on a
+module-level function, no mutable default argument): a call cannot depend on earlier calls in the process — the model's
+`ciq` / `minres` are functions of their arguments only. -/
+theorem no_module_state : moduleState = [] := by decide +kernel
+
 /-- The kernel is called with its own parameter names in order (no swapped buffer at the call site). -/
 theorem kernel_call_aligned : kernelCallArgs = kernelParams := by decide +kernel
 
